@@ -84,6 +84,12 @@ func zzH_C09_account() {
 	}
 	if zzverif.Bool("newtx") {
 		s.Finalise(true) // the state was produced by an earlier transaction
+		if zzverif.Bool("rewritten") {
+			// ... and the current transaction already wrote the slot again (possibly back to its committed value)
+			var v1 common.Hash
+			v1[31] = zzverif.U8("slot1")
+			s.SetState(zzAddr(0), key, v1)
+		}
 	}
 	before := zzC09Observe(s, key)
 	id := s.Snapshot()
